@@ -92,6 +92,17 @@ def check_iter(inp):
       return 'fixed seed: second iteration differs'
   if not np.array_equal(d.raw_examples['x'], keep):
     return 'dataset mutated'
+  # a consumer (or an in-place preprocessor) that works on the batches it is given: batches are the consumer's own arrays, so
+  # the dataset keeps its content and later passes give the same stream
+  for x in view:
+    x['x'] += 1000
+  if not np.array_equal(d.raw_examples['x'], keep):
+    return (f'in-place work on the yielded batches changed the dataset (skip_shuffle={skip}, N={n}, batch_size={b}): batches alias '
+            'the storage of the ClientDataset')
+  if seed is not None:
+    third = [x['x'].copy() for x in view]
+    if any(not np.array_equal(a, c) for a, c in zip(first, third)):
+      return 'after in-place work on the batches of one pass, the next pass yields different batches'
   if not skip and n >= 5 and len(wins) >= 4 and all(
       w.tolist() == wins[0].tolist() for w in wins):
     return 'windows are never re-shuffled'
